@@ -256,6 +256,53 @@ async def observe(gwy: Any, tr: Any, rec: Recorder, state: dict, verbose: bool =
         rec.add("op", "restore", res, outer_before, after, detail="outer restore of a nested pair")
         if after != outer_before:
             return False
+    # 2c. "whether or not the operation itself succeeded": the harness makes the body of each operation raise
+    #     (Engine.tla: the body may raise at any point) - a store that cannot be traversed for the snapshot, a
+    #     transport that cannot be created for the restore - and the engine must be running as before afterwards
+    if state.get("n", 0) % 3 == 0:
+        class _Boom:
+            id = "99:999999"
+
+            @property
+            def _msg_db(self):  # noqa: ANN202
+                raise RuntimeError("injected by the harness")
+
+        before = proj(gwy, tr)
+        gwy.devices.append(_Boom())
+        try:
+            gwy.get_state()
+            res = "ok"
+        except Exception as err:  # noqa: BLE001
+            res = type(err).__name__
+        finally:
+            gwy.devices[:] = [d for d in gwy.devices if not isinstance(d, _Boom)]
+        await vloop.drain()
+        after = proj(gwy, tr)
+        rec.add("opx", "get_state", res, before, after, detail="injected: a store raises while it is traversed")
+        if after != before:
+            return False
+        if pk is not None:
+            import ramses_rf.gateway as _g
+
+            orig_tf = _g.transport_factory
+
+            async def _tf(*a: Any, **kw: Any) -> Any:
+                raise RuntimeError("injected by the harness")
+
+            before = proj(gwy, tr)
+            _g.transport_factory = _tf
+            try:
+                await gwy._restore_cached_packets(pk)
+                res = "ok"
+            except Exception as err:  # noqa: BLE001
+                res = type(err).__name__
+            finally:
+                _g.transport_factory = orig_tf
+            await vloop.drain()
+            after = proj(gwy, tr)
+            rec.add("opx", "restore", res, before, after, detail="injected: the replay transport cannot be created")
+            if after != before:
+                return False
     if not nodisc:
         gwy.config.disable_discovery = True
     # 3. probes: still receiving, still tracking what it knows, still able to send
